@@ -40,6 +40,12 @@ def close_fault_scenarios(rng, n):
         for k in keys:
             if rng.random() < 0.8:
                 body += _point(k)
+        for k in monitored:
+            r = rng.random()
+            if r < 0.25:
+                body.append(M("unmonitor", f"s{k}", run=k))
+            elif r < 0.5:   # the plan swallows a failing unmonitor and goes on
+                body.append({"k": "try", "body": M("unmonitor", f"s{k}", run=k), "handler": M("null"), "fin": None})
         ending = rng.choice(["close", "close", "raise", "raise-odd", "pause-abort", "pause-stop", "pause-halt", "leave-open"])
         decisions = []
         if ending == "close":
@@ -167,9 +173,8 @@ def nothing_left_behind(sc, o):
     bad = []
     if o["final_state"] != "idle":
         return bad
-    raising = {k for k, v in sc["devices"].items() if "raise" in v.get("modes", {}).get("clear_sub", [])}
     for name, n in o.get("subs_left", {}).items():
-        if n and name not in raising:
+        if n:
             bad.append(("monitor-subscription-left", f"{name} still has {n} subscription(s) at idle (fault: {sc.get('fault')}, ending {sc.get('ending')})"))
     for nm in sc.get("staged", []):
         calls = sum(1 for e in o["ledger"] if e[0] == nm and e[1] == "unstage")
@@ -258,3 +263,17 @@ def replay_probe(ctx, data, judges):
         for sig, what in judge(sc, o):
             res.violations.append(C.Violation("fault-probe:" + sig, what, sc))
     return res
+
+
+def no_document_after_stop(sc, o):
+    """C41 / C01: once a run has its RunStop nothing more is emitted for it (a leaked monitor subscription would)"""
+    bad = []
+    closed = set()
+    for d in o["docs"]:
+        r = d.get("run")
+        if d["k"] == "stop":
+            closed.add(r)
+        elif r in closed:
+            bad.append((f"{d['k']}-after-stop", f"a {d['k']} document of {r} ({d.get('stream')}) was emitted after its RunStop (fault: {sc.get('fault')}, ending {sc.get('ending')})"))
+            break
+    return bad
